@@ -553,9 +553,16 @@ func c10R3(h H) {
 
 func c10R4(h H) {
 	r := h.r
-	r.Rule("R4", "environment replacement terminates: the loop of replaceEnvReferences has a verified ranking function (the length of the text still to be searched, len(s) − index, drops on every iteration)", 1)
-	fn := h.fn("R4", cfPkg, "replaceEnvReferences")
+	r.Rule("R4", "environment replacement terminates: the loop of replaceEnvReferences has a verified ranking function (the length of the text still to be searched, len(s) − index, drops on every iteration); and, as a table (E10) of replaceEnvVars over eleven texts whose values contain references, also their own: it ends within the step budget with every written reference replaced once", 1)
+	fn := h.p.Func(cfPkg, "replaceEnvReferences")
 	if fn == nil {
+		// the helper is gone (the expansion was rewritten): the table decides the clause from replaceEnvVars itself;
+		// the new loops are R2's business like every other loop of the package
+		if h.p.Func(cfPkg, "replaceEnvVars") == nil {
+			r.Unresolve("R4", "casketfile: neither replaceEnvReferences nor replaceEnvVars found")
+			return
+		}
+		c10R4Table(h)
 		return
 	}
 	n := 0
@@ -570,6 +577,49 @@ func c10R4(h H) {
 	if n == 0 {
 		r.Unresolve("R4", "replaceEnvReferences: no loop found")
 	}
+	c10R4Table(h)
+}
+
+// c10R4Table: the same clause decided from what the function computes (E10), whatever its loops look like:
+// replaceEnvVars on texts whose values contain references — also their own — ends within the step budget with every
+// written reference replaced once and nothing of an inserted value expanded again.
+func c10R4Table(h H) {
+	r := h.r
+	fn := h.p.Func(cfPkg, "replaceEnvVars")
+	if fn == nil {
+		return // the loop rule above reports the missing anchor
+	}
+	env0 := map[string]string{"A": "v", "SELF": "{$SELF}", "WSELF": "x{%WSELF%}", "NEXT": "x{$B}", "B": "y", "EMPTY": ""}
+	cases := []struct{ in, want string }{
+		{"{$A}", "v"}, {"pre{$A}post", "prevpost"}, {"{%A%}", "v"}, {"{$A}{%A%}", "vv"},
+		{"{$SELF}", "{$SELF}"}, {"{%WSELF%}", "x{%WSELF%}"}, {"{$NEXT}{$B}", "x{$B}y"},
+		{"{$EMPTY}z", "z"}, {"{$UNSET}z", "z"}, {"{$A", "{$A"}, {"plain", "plain"},
+	}
+	bad, n := "", 0
+	for _, c := range cases {
+		env := &absEnv{globals: map[string]*aobj{}, noFork: true, maxSteps: 200000}
+		env.ext = func(callee string, args []aval) (aval, bool) {
+			if callee == "os.Getenv" {
+				if k, ok := args[0].(astr); ok {
+					return astr(env0[string(k)]), true
+				}
+			}
+			return nil, false
+		}
+		res, und := env.run(fn, []aval{astr(c.in)})
+		n++
+		got, ok := res.(astr)
+		switch {
+		case und != "":
+			bad = sprintf("replaceEnvVars(%q): undecided — %s (a value that contains a reference must not be expanded again: the loop would not end)", c.in, und)
+		case !ok || string(got) != c.want:
+			bad = sprintf("replaceEnvVars(%q) = %s, specification says %q (A=v, SELF={$SELF}, WSELF=x{%%WSELF%%}, NEXT=x{$B}, B=y)", c.in, describeAval(res), c.want)
+		}
+		if bad != "" {
+			break
+		}
+	}
+	r.Check(bad == "", "R4", "casketfile.replaceEnvVars/expansion-table", fn.Pos(), "every written reference is replaced once, values are not expanded again, and the replacement ends", sprintf("%d texts evaluated", n), bad)
 }
 
 func firstPos(b *ssa.BasicBlock) token.Pos {
